@@ -73,9 +73,11 @@ theorem modify (ht : ∀ x y z, R x y → R y z → R x z) {a0 a : Array α} (j 
     (hf : ∀ x, R x (f x)) (h : ArrExt R a0 a) : ArrExt R a0 (a.modify j f) := modify' ht j f (hf _) h
 end ArrExt
 
-/-- a scope stays the same scope, its failures are append-only; closed to new tasks means closed for ever -/
+/-- a scope stays the same scope (same owner, and an `until` scope listens to the same notification with the same interrupt),
+its failures are append-only; closed to new tasks means closed for ever -/
 def ScopeOk (x y : Scope) : Prop :=
   y.bodyDone = x.bodyDone ∧ y.cancelSelf = x.cancelSelf ∧ y.name = x.name ∧ y.inst = x.inst ∧
+  y.activity = x.activity ∧ y.notification = x.notification ∧ y.interrupt = x.interrupt ∧
   x.failures <+: y.failures ∧
   (x.interruptable = false → y.interruptable = false ∧ y.children.Sublist x.children ∧
     y.volatileChildren.Sublist x.volatileChildren)
@@ -94,11 +96,12 @@ def EventOk (x y : PyEvent) : Prop :=
   y.flag = x.flag ∧ y.kind = x.kind ∧ (x.value.isSome = true → y.value = x.value) ∧ (x.callbacks = none → y.callbacks = none)
 
 theorem ScopeOk.refl (x : Scope) : ScopeOk x x :=
-  ⟨rfl, rfl, rfl, rfl, List.prefix_refl _, fun h => ⟨h, List.Sublist.refl _, List.Sublist.refl _⟩⟩
+  ⟨rfl, rfl, rfl, rfl, rfl, rfl, rfl, List.prefix_refl _, fun h => ⟨h, List.Sublist.refl _, List.Sublist.refl _⟩⟩
 theorem ScopeOk.trans (x y z : Scope) (h1 : ScopeOk x y) (h2 : ScopeOk y z) : ScopeOk x z := by
-  obtain ⟨a1, a2, a3, a4, a5, a6⟩ := h1
-  obtain ⟨b1, b2, b3, b4, b5, b6⟩ := h2
-  refine ⟨b1.trans a1, b2.trans a2, b3.trans a3, b4.trans a4, List.IsPrefix.trans a5 b5, fun h => ?_⟩
+  obtain ⟨a1, a2, a3, a4, a7, a8, a9, a5, a6⟩ := h1
+  obtain ⟨b1, b2, b3, b4, b7, b8, b9, b5, b6⟩ := h2
+  refine ⟨b1.trans a1, b2.trans a2, b3.trans a3, b4.trans a4, b7.trans a7, b8.trans a8, b9.trans a9,
+    List.IsPrefix.trans a5 b5, fun h => ?_⟩
   have c := a6 h
   have d := b6 c.1
   exact ⟨d.1, d.2.1.trans c.2.1, d.2.2.trans c.2.2⟩
@@ -383,10 +386,10 @@ syntax "ok_close" : tactic
 macro_rules
   | `(tactic| ok_close) => `(tactic| ((try intro x); first
       | exact ScopeOk.refl _
-      | exact ⟨rfl, rfl, rfl, rfl, List.prefix_refl _, fun _ => ⟨rfl, List.Sublist.refl _, List.Sublist.refl _⟩⟩
-      | exact ⟨rfl, rfl, rfl, rfl, List.prefix_append _ _, fun h => ⟨h, List.Sublist.refl _, List.Sublist.refl _⟩⟩
-      | exact ⟨rfl, rfl, rfl, rfl, List.prefix_refl _, fun h => ⟨h, List.erase_sublist, List.Sublist.refl _⟩⟩
-      | exact ⟨rfl, rfl, rfl, rfl, List.prefix_refl _, fun h => ⟨h, List.Sublist.refl _, List.erase_sublist⟩⟩
+      | exact ⟨rfl, rfl, rfl, rfl, rfl, rfl, rfl, List.prefix_refl _, fun _ => ⟨rfl, List.Sublist.refl _, List.Sublist.refl _⟩⟩
+      | exact ⟨rfl, rfl, rfl, rfl, rfl, rfl, rfl, List.prefix_append _ _, fun h => ⟨h, List.Sublist.refl _, List.Sublist.refl _⟩⟩
+      | exact ⟨rfl, rfl, rfl, rfl, rfl, rfl, rfl, List.prefix_refl _, fun h => ⟨h, List.erase_sublist, List.Sublist.refl _⟩⟩
+      | exact ⟨rfl, rfl, rfl, rfl, rfl, rfl, rfl, List.prefix_refl _, fun h => ⟨h, List.Sublist.refl _, List.erase_sublist⟩⟩
       | exact QueueOk.refl _
       | exact ⟨rfl, rfl, fun _ => ⟨rfl, List.suffix_refl _⟩, ⟨0, [], by simp⟩⟩
       | exact ChanOk.refl _
@@ -395,7 +398,7 @@ macro_rules
       | exact EventOk.refl _
       | exact ⟨rfl, rfl, fun _ => rfl, fun h => h⟩
       | exact ⟨rfl, rfl, fun _ => rfl, fun _ => rfl⟩
-      | (refine ⟨rfl, rfl, rfl, rfl, List.prefix_refl _, fun h => ?_⟩; exfalso; (try simp only [ovsimp] at h);
+      | (refine ⟨rfl, rfl, rfl, rfl, rfl, rfl, rfl, List.prefix_refl _, fun h => ?_⟩; exfalso; (try simp only [ovsimp] at h);
          simp_all [World.scope]; done)
       | (refine ⟨rfl, rfl, fun h => ?_, fun h => h⟩; exfalso; (try simp only [ovsimp] at h); simp_all [World.pyEv]; done)
       | (refine ⟨rfl, rfl, fun _ => rfl, fun h => ?_⟩; exfalso; (try simp only [ovsimp] at h); simp_all [World.pyEv]; done)
